@@ -75,3 +75,23 @@ def materialise(res: plugin_pb2.CodeGeneratorResponse, root=None) -> str:
 
 def cleanup(root):
     shutil.rmtree(root, ignore_errors=True)
+
+
+def crash_signature(e: BaseException) -> str:
+    """small canonical key for a generator crash: exception type + innermost repo/template frame"""
+    import traceback
+    where = "?"
+    for fr in reversed(traceback.extract_tb(e.__traceback__)):
+        fn = fr.filename
+        if "/gapic/" in fn:
+            where = fn.split("/gapic/", 1)[1].replace("%", "") + ":" + (fr.name or "")
+            break
+    return f"{type(e).__name__}@{where}"
+
+
+def try_generate(req):
+    """(response, None) or (None, (signature, message))"""
+    try:
+        return generate_inproc(req), None
+    except BaseException as e:  # noqa: the generator may raise anything
+        return None, (crash_signature(e), str(e)[:300])
